@@ -3,10 +3,12 @@ package main
 import (
 	"bytes"
 	"fmt"
+	"math"
 	"reflect"
 	"runtime"
 	"runtime/debug"
 	"strings"
+	"sync/atomic"
 
 	"github.com/CrowdStrike/csproto"
 	"github.com/CrowdStrike/csproto/lazyproto"
@@ -66,12 +68,60 @@ func allPayloads(input []byte, tag int) [][]byte {
 
 type optCombo struct {
 	fast   bool
-	maxBuf int // -1 = none
-	filter int // 0 none, 1 shrink to 1, 2 halve
+	maxBuf int // -1 = WithMaxBufferSize not given
+	filter int // index into lzFilterNames; 0 = WithBufferFilterFunc not given
 }
 
+// the buffer filter functions: the answer is the capacity to trim to, a negative one means "leave the buffers alone"
+var lzFilterNames = []string{"none", "to-1", "halve", "negative", "zero", "huge", "negative-up-to-4-else-2", "cycle(-1,0,3,-7)"}
+
 func (o optCombo) String() string {
-	return fmt.Sprintf("fast=%v maxBuffer=%d filter=%d", o.fast, o.maxBuf, o.filter)
+	return fmt.Sprintf("fast=%v maxBuffer=%d filter=%s", o.fast, o.maxBuf, lzFilterNames[o.filter])
+}
+
+// genOptCombo: mode x {no max, max 0 / 1 / 2 / 64} x {no filter, one of the filter functions}, every combination -
+// in particular a filter WITHOUT a max buffer size and filters that answer with a negative capacity.
+// The capacity options must never change what a result answers.
+func genOptCombo(r *prng.Rng) optCombo {
+	return optCombo{fast: r.Bool(), maxBuf: []int{-1, -1, 0, 1, 2, 64}[r.Intn(6)], filter: []int{0, 0, 1, 2, 3, 3, 4, 5, 6, 7}[r.Intn(10)]}
+}
+
+func (o optCombo) options() []lazyproto.Option {
+	mode := csproto.DecoderModeSafe
+	if o.fast {
+		mode = csproto.DecoderModeFast
+	}
+	opts := []lazyproto.Option{lazyproto.WithMode(mode)}
+	if o.maxBuf >= 0 {
+		opts = append(opts, lazyproto.WithMaxBufferSize(o.maxBuf))
+	}
+	var f func(capacity int) int
+	switch o.filter {
+	case 1:
+		f = func(capacity int) int { return 1 }
+	case 2:
+		f = func(capacity int) int { return capacity / 2 }
+	case 3:
+		f = func(capacity int) int { return -1 }
+	case 4:
+		f = func(capacity int) int { return 0 }
+	case 5:
+		f = func(capacity int) int { return math.MaxInt }
+	case 6:
+		f = func(capacity int) int {
+			if capacity <= 4 {
+				return -1
+			}
+			return 2
+		}
+	case 7:
+		var calls atomic.Int64 // decoders are shared between goroutines in C15
+		f = func(capacity int) int { return []int{-1, 0, 3, -7}[calls.Add(1)%4] }
+	}
+	if f != nil {
+		opts = append(opts, lazyproto.WithBufferFilterFunc(f))
+	}
+	return opts
 }
 
 func poolHistory(c *fw.Ctx, steps int) {
@@ -85,21 +135,8 @@ func poolHistory(c *fw.Ctx, steps int) {
 			hasNested = true
 		}
 	}
-	opt := optCombo{fast: r.Bool(), maxBuf: []int{-1, -1, 0, 1, 2, 64}[r.Intn(6)], filter: r.Intn(3)}
-	mode := csproto.DecoderModeSafe
-	if opt.fast {
-		mode = csproto.DecoderModeFast
-	}
-	opts := []lazyproto.Option{lazyproto.WithMode(mode)}
-	if opt.maxBuf >= 0 {
-		opts = append(opts, lazyproto.WithMaxBufferSize(opt.maxBuf))
-	}
-	switch opt.filter {
-	case 1:
-		opts = append(opts, lazyproto.WithBufferFilterFunc(func(capacity int) int { return 1 }))
-	case 2:
-		opts = append(opts, lazyproto.WithBufferFilterFunc(func(capacity int) int { return capacity / 2 }))
-	}
+	opt := genOptCombo(r)
+	opts := opt.options()
 	dec, err := lazyproto.NewDecoder(def.toDef(), opts...)
 	if err != nil {
 		return
@@ -593,11 +630,9 @@ func survivalScript(c *fw.Ctx) {
 	}
 	def := lazyproto.NewDef(1, 2)
 	def.NestedTag(3, 1, 2)
-	opts := []lazyproto.Option{lazyproto.WithMode(csproto.DecoderModeSafe)}
-	if k := r.Intn(4); k > 0 {
-		opts = append(opts, lazyproto.WithMaxBufferSize([]int{0, 1, 64}[k-1]))
-	}
-	dec, err := lazyproto.NewDecoder(def, opts...)
+	opt := genOptCombo(r)
+	opt.fast = false
+	dec, err := lazyproto.NewDecoder(def, opt.options()...)
 	if err != nil {
 		return
 	}
@@ -690,7 +725,7 @@ func runC14(c *fw.Ctx) int {
 		c.LeanChecker("C14")
 	}
 	return c.Finish(
-		"histories: one Decoder per history (random definition with nested definitions; options mode {safe, fast} x max buffer {none, 0, 1, 2, 64} x filter {none, shrink to 1, halve}); 12-41 operations drawn from Decode (over a pool of 4-6 inputs of the same schema with 0-5 occurrences per tag, sometimes the empty message), single-tag accessors (26), NestedResult, NestedResults, Range, Close of a root, Close of a nested handle, immediately repeated Close; object identities (pointer equality) are passed to the model as the pool's choices; every accessor answer is compared with the model and with a reference parse of that handle's own input; byte slices handed out in safe mode are re-checked after all closes and further decodes; GOMAXPROCS=1 and GC off so recycling is near-certain; non-trivial = distinct history in which at least one object was observed being reused",
+		"histories: one Decoder per history (random definition with nested definitions; options mode {safe, fast} x max buffer {none, 0, 1, 2, 64} x filter {none, shrink to 1, halve, always negative = leave alone, zero, huge, negative for small capacities else 2, answers cycling through -1 / 0 / 3 / -7} - every combination, i.e. also a filter without a max buffer size); 12-41 operations drawn from Decode (over a pool of 4-6 inputs of the same schema with 0-5 occurrences per tag, sometimes the empty message), single-tag accessors (26), NestedResult, NestedResults, Range, Close of a root, Close of a nested handle, immediately repeated Close; object identities (pointer equality) are passed to the model as the pool's choices; every accessor answer is compared with the model and with a reference parse of that handle's own input; byte slices handed out in safe mode are re-checked after all closes and further decodes; GOMAXPROCS=1 and GC off so recycling is near-certain; non-trivial = distinct history in which at least one object was observed being reused",
 		append(trustedCommon, "sync.Pool assumed to hand an object to at most one getter until it is put back, returning either a previously put object or a new one"),
 		[]string{"client well-formedness: a handle (and the nested handles obtained from it) is not used after its root's Close, except that Close may be repeated immediately",
 			"capacities, max-buffer / filter trimming and fast-mode scratch slices are unobservable in values and absent from the model; the option combinations are exercised to validate exactly that"})
